@@ -320,4 +320,29 @@ def firstBad (bad : Sys → Bool) (s : Sys) : List Nat → Nat → Option Nat
   | [], k => if bad s then some k else none
   | i :: r, k => if bad s then some k else firstBad bad (step s i) r (k + 1)
 
+/-! ### the schedules on which `installed_while_running` is provable -/
+
+/-- the start section of `run`: everything before `LockFile(...)` -/
+def Pc.startSec : Pc → Bool
+  | .mkdtemp | .openTmp | .rename | .rmtreeTmp | .openLock | .objGet1 | .objGet2 | .excRemove
+  | .createMap | .removeOld | .attach | .objPin | .excRmtree => true
+  | _ => false
+
+/-- the last leaver after its successful `rmdir`, before it has finished `remove(programs)` -/
+def Pc.lateExit : Pc → Bool
+  | .detach | .removePin => true
+  | _ => false
+
+def noneLate (s : Sys) : Bool := (List.range s.procs.length).all fun j => !(getP s j).pc.lateExit
+
+/-- the step is outside the two race windows: no operation of a start section while a last leaver is between
+`rmdir` and `remove(programs)`, and no `rename` that succeeds while an old programs file exists -/
+def okStep (s : Sys) (i : Nat) : Bool :=
+  (!(getP s i).pc.startSec || noneLate s) &&
+  (!((getP s i).pc == .rename && (s.lockdir == none || s.lockdir == some [])) || s.pin == none)
+
+def Quiet (s : Sys) : List Nat → Bool
+  | [] => true
+  | i :: r => okStep s i && Quiet (step s i) r
+
 end Ebv.Parallel
